@@ -16,7 +16,7 @@ def parse (toks : List String) : Option (Rl4co.Cvrptw.Inst × Int × Int × Int 
 def verdicts (i : Rl4co.Cvrptw.Inst) (tol unit e0 : Int) (as : List Nat) : String :=
   let feas := Rl4co.Spec.Cvrptw.feasible i as
   let near := !feas && Rl4co.Spec.Cvrptw.feasibleWithin tol i as
-  s!"check={bit (Rl4co.Cvrptw.check i tol unit e0 as)} feas={bit feas} near={bit near} base={bit (Rl4co.Spec.Cvrp.feasible i.base as)} checkx={bit (Rl4co.Cvrptw.check i tol 1 e0 as)} checkown={bit (Rl4co.Cvrptw.check i tol unit (i.twE 0) as)}"
+  s!"check={bit (Rl4co.Cvrptw.check i tol unit e0 as)} feas={bit feas} near={bit near} base={bit (Rl4co.Spec.Cvrp.feasible i.base as)} checkx={bit (Rl4co.Cvrptw.check i tol 1 e0 as)} checkown={bit (Rl4co.Cvrptw.check i tol unit (i.twE 0) as)} checkrep={bit (Rl4co.Cvrptw.checkG false false i tol unit e0 as)} static={bit (Rl4co.Cvrptw.checkStatic i (i.twE 0))}"
 
 /-- `cvrptw.episode …`: mask/done trace, reward, checker and spec verdicts -/
 def episode (toks : List String) : Option String := do
